@@ -444,6 +444,17 @@ func (g *genState) genForProgram(p *Prog, allLabels []string, n int, pending []I
 			default:
 				f.Count = Bin{'+', Bin{'%', q, Lit{V: 3}}, Lit{V: r.Intn(2)}}
 			}
+		} else if r.Intn(12) == 0 {
+			// the predefined constants in a count (small values by construction: x % k, x / x)
+			cn := Ref{pick(r, []string{"CORESIZE", "MAXLENGTH", "MAXPROCESSES", "MINDISTANCE"})}
+			switch r.Intn(3) {
+			case 0:
+				f.Count = Bin{'%', cn, Lit{V: 2 + r.Intn(3)}}
+			case 1:
+				f.Count = Bin{'+', Bin{'/', cn, Par{Bin{'+', cn, Lit{V: 1}}}}, Lit{V: cnt}}
+			default:
+				f.Count = Bin{'-', Bin{'+', cn, Lit{V: cnt}}, cn}
+			}
 		} else if depth > 1 && len(g.ctrs) > 0 && r.Intn(3) == 0 {
 			// the count of an inner block depends on the counter of an enclosing one
 			outer := Ref{g.ctrs[len(g.ctrs)-1]}
